@@ -1003,6 +1003,11 @@ impl Gen {
             self.fault("F1_readonly_map_mutation");
             return Some(Op::DtMap { doc, which: self.rng.below(4), name: self.rng.ps(&["e1", "e2", "nope"]).to_string() });
         }
+        if self.rng.pct(12) && self.step_no > 6 {
+            // fault F5: crash and restart from the serialisation; all handles into the document are lost
+            self.fault("F5_restart");
+            return Some(Op::Restart { doc });
+        }
         Some(if self.rng.pct(60) { Op::Checkpoint { doc } } else { Op::Reparse { doc } })
     }
 
@@ -1245,7 +1250,14 @@ impl Gen {
                 4 => self.gen_nav(w, task),
                 5 => self.gen_query(w, task),
                 6 => self.gen_drop(w, task),
-                7 => self.step_proc(w, task),
+                7 => {
+                    let o = self.step_proc(w, task);
+                    if o.is_none() {
+                        // the procedure cannot continue (its handles are gone): the task abandons it
+                        self.tasks[task].proc = None;
+                    }
+                    o
+                }
                 _ => self.gen_check(w, task),
             };
             if let Some(op) = op {
